@@ -8,6 +8,7 @@ import (
 	"crypto/sha256"
 	"encoding/binary"
 	"errors"
+	"fmt"
 	"sync"
 	"time"
 
@@ -215,12 +216,40 @@ type submitCall struct {
 	Height   uint64 // DA height they went to (0 = none)
 }
 
+// Fault: what one fetch attempt of the DA scan meets instead of being served.
+//   op "list": GetIDs fails; op "get": GetIDs lists the ids truthfully and the Get fails.
+//   text: "plain" (some transport error), "deadline" (coreda.ErrContextDeadline), "nf" (the sentinel
+//   coreda.ErrBlobNotFound itself), "nfwrap" (an error wrapping it, as the jsonrpc proxy produces), "fut" (an error
+//   wrapping coreda.ErrHeightFromFuture).  A listing that claims "not found" for a height that has blobs is not a
+//   fault but a lie about the content of the DA layer: op "list" with text nf/nfwrap is rejected.
+type Fault struct {
+	Op   string `json:"op"`
+	Text string `json:"text,omitempty"`
+}
+
+func (f Fault) nf() bool  { return f.Text == "nf" || f.Text == "nfwrap" }
+func (f Fault) fut() bool { return f.Text == "fut" }
+func (f Fault) err() error {
+	switch f.Text {
+	case "nf":
+		return coreda.ErrBlobNotFound
+	case "nfwrap":
+		return fmt.Errorf("rpc error: failed to get blob: %w", coreda.ErrBlobNotFound)
+	case "fut":
+		return fmt.Errorf("c07: node is syncing: %w", coreda.ErrHeightFromFuture)
+	case "deadline":
+		return coreda.ErrContextDeadline
+	}
+	return errors.New("c07: DA unavailable")
+}
+
 type daDouble struct {
 	mu      sync.Mutex
 	heights map[uint64][][]byte
 	top     uint64
 	script  []Outcome
 	calls   []submitCall
+	faults  []Fault // met by the successive GetIDs / Get calls, in order; then truthful service
 }
 
 func newDA() *daDouble { return &daDouble{heights: map[uint64][][]byte{}} }
@@ -300,6 +329,11 @@ func (d *daDouble) Submit(ctx context.Context, blobs []coreda.Blob, gasPrice flo
 func (d *daDouble) GetIDs(ctx context.Context, height uint64, ns []byte) (*coreda.GetIDsResult, error) {
 	d.mu.Lock()
 	defer d.mu.Unlock()
+	if len(d.faults) > 0 && d.faults[0].Op == "list" {
+		f := d.faults[0]
+		d.faults = d.faults[1:]
+		return nil, f.err()
+	}
 	if height > d.top {
 		return nil, coreda.ErrHeightFromFuture
 	}
@@ -316,6 +350,11 @@ func (d *daDouble) GetIDs(ctx context.Context, height uint64, ns []byte) (*cored
 func (d *daDouble) Get(ctx context.Context, ids []coreda.ID, ns []byte) ([]coreda.Blob, error) {
 	d.mu.Lock()
 	defer d.mu.Unlock()
+	if len(d.faults) > 0 && d.faults[0].Op == "get" {
+		f := d.faults[0]
+		d.faults = d.faults[1:]
+		return nil, f.err()
+	}
 	var out []coreda.Blob
 	for _, id := range ids {
 		if len(id) != 12 {
